@@ -29,6 +29,12 @@ def block(s):
 
 
 def cases(rng, tier):
+    # few charges among 18-25 neutral residues (both flank loops of that regime), and lopsided compositions with 7-16 neutrals
+    for n0 in ((18, 21) if tier == "quick" else (18, 19, 21, 25)):
+        for a, b in ((1, 1), (2, 2), (1, 2), (1, 25), (2, 30), (30, 1), (3, 45), (24, 2)):
+            if tier != "quick" or (a + b + n0) < 60:
+                sq = gen.spell(gen.arrange((a, b, n0), rng), rng)
+                yield Case(["q kappa " + sq, "q dmax " + sq, "q delta " + sq], {"kind": "few-charges-many-neutrals"})
     # duplicates of objects with built-up state: every way of copying x every kind of state
     for l in core.copy_cases(rng, 2 if tier == "quick" else 12, ['kappa', 'dmax']):
         yield Case([l], {"kind": "duplicate-of-object"})
